@@ -69,9 +69,21 @@ pub fn run<T: Send>(
                 }
             }
         });
-        let out: Vec<T> = hs.into_iter().map(|h| h.join().expect("worker panicked")).collect();
+        let joined: Vec<std::thread::Result<T>> = hs.into_iter().map(|h| h.join()).collect();
         stop.store(true, Ordering::Relaxed);
         mon.join().unwrap();
+        let mut out = Vec::new();
+        for j in joined {
+            match j {
+                Ok(t) => out.push(t),
+                Err(_) => {
+                    // a panic of the harness itself (not of the code under test, which is
+                    // always called inside catch_unwind): machinery error, never a verdict
+                    println!("MACHINERY-ERROR a harness worker thread panicked: {}", crate::runx::last_panic());
+                    std::process::exit(2);
+                }
+            }
+        }
         out
     })
 }
